@@ -470,6 +470,12 @@
                         present = true
                         }
                     </xsl:text>
+                    <xsl:if test="not(contains(local:returning-type(.), '*'))">
+                        <xsl:text>if !present {
+                        return
+                        }
+                    </xsl:text>
+                    </xsl:if>
                 </xsl:if>
                 <xsl:if test="local:is-optional-attribute(.) and exists(./@default)">
                     <xsl:text>if t.</xsl:text>
